@@ -32,12 +32,12 @@ Theorem ixfr_soa_out_of_place : forall fin pre P b rest z0 z1 ser ws,
   skel_ok ser fin pre -> apply_secs z0 pre = Some z1 ->
   Forall okrec P -> (pre <> [] \/ P = []) ->
   v_serial b <> end_serial ser pre ->
-  v_serial fin <> ser -> serial_lt (v_serial fin) ser = false ->
+  v_serial fin <> ser -> serial_lt (v_serial fin) ser = false -> (pre = [] /\ P = [] \/ quiet z0) ->
   chunking tIXFR (soa_rr fin :: secs_stream pre ++ P ++ soa_rr b :: rest) ws ->
   exists n, inbound_xfr z0 tIXFR (Some ser) false ws =
             (Error (mis_code fin b (match pre with [] => true | _ => false end)) z0, n).
 Proof.
-  intros fin pre P b rest z0 z1 ser ws Hsk Hap HP Hcase Hser Hs Hlt Hch.
+  intros fin pre P b rest z0 z1 ser ws Hsk Hap HP Hcase Hser Hs Hlt Hq0 Hch.
   apply chunking_first in Hch. destruct Hch as (w & ws' & a & -> & Hr & Hw & Hws & Hcat).
   unfold inbound_xfr, xfr_run. rewrite init_ixfr. cbn [Z.eqb tIXFR Pos.eqb]. rewrite drive_cons by solve_req.
   rewrite (first_message_ixfr z0 ser false w (soa_rr fin) a Hw Hr) by (split; reflexivity).
@@ -45,20 +45,34 @@ Proof.
   apply Z.eqb_neq in Hs. rewrite Hs, Hlt. cbn [andb]. rewrite after_tcp by reflexivity.
   assert (Hrun : running (ist false z0 z0 ser (single (soa_rr fin)) true false)).
   { repeat split; try reflexivity; discriminate. }
-  pose proof (secs_run false pre z0 z0 ser fin true z1 Hsk Hap) as Hl.
   set (e1 := match pre with [] => true | _ :: _ => false end) in *.
   assert (Hl2 : loopn (ist false z0 z0 ser (single (soa_rr fin)) true false) (map single (secs_stream pre ++ P)) =
                 (ist false z0 (adds z1 (erase P)) (end_serial ser pre) (single (soa_rr fin)) e1 false, None)).
-  { rewrite map_app, loopn_app, Hl. destruct Hcase as [Hne| ->].
-    - assert (e1 = false) as -> by (subst e1; destruct pre; [congruence|reflexivity]).
-      apply loopn_erase_adds, HP.
-    - reflexivity. }
+  { destruct Hq0 as [[-> ->]|Hq0].
+    - cbn in Hap. inversion Hap; subst. reflexivity.
+    - pose proof (secs_run false pre z0 z0 ser fin true z1 Hsk Hap Hq0) as Hl.
+      assert (Hq1 : quiet z1) by (apply (quiet_apply_secs _ _ _ _ _ Hsk Hap Hq0)).
+      fold e1 in Hl.
+      rewrite map_app, loopn_app, Hl. destruct Hcase as [Hne| ->].
+      + assert (e1 = false) as -> by (subst e1; destruct pre; [congruence|reflexivity]).
+        apply loopn_erase_adds; [exact HP|exact Hq1].
+      + reflexivity. }
   assert (Hcat2 : a ++ concat (map w_records ws') = (secs_stream pre ++ P) ++ soa_rr b :: rest).
   { rewrite Hcat, <- app_assoc. reflexivity. }
   destruct (cont_error_after ws' a _ _ (soa_rr b) rest _ _ _ Hrun Hws Hcat2 Hl2 eq_refl
               (fun l => step_soa_mismatch l false z0 (adds z1 (erase P)) (end_serial ser pre) fin e1 b Hser)) as [n Hn].
   exists n. exact Hn.
 Qed.
+
+Lemma ixfr_soa_out_of_place_q : forall fin pre P b rest z0 z1 ser ws,
+  skel_ok ser fin pre -> apply_secs z0 pre = Some z1 ->
+  Forall okrec P -> (pre <> [] \/ P = []) ->
+  v_serial b <> end_serial ser pre ->
+  v_serial fin <> ser -> serial_lt (v_serial fin) ser = false -> quiet z0 ->
+  chunking tIXFR (soa_rr fin :: secs_stream pre ++ P ++ soa_rr b :: rest) ws ->
+  exists n, inbound_xfr z0 tIXFR (Some ser) false ws =
+            (Error (mis_code fin b (match pre with [] => true | _ => false end)) z0, n).
+Proof. intros. eapply ixfr_soa_out_of_place; eauto. Qed.
 
 (* ---- a valid chain of versions as sections ---- *)
 Fixpoint secs_of (v : version) (chain : list version) : list sect :=
@@ -188,6 +202,9 @@ Let fin := last chain v0.
 Hypothesis Hok : chain_ok v0 chain.
 Hypothesis Hcons : v_serial b <> v_serial a.    (* consecutive versions have different serials *)
 
+Lemma z0_quiet : forall z0, zeq z0 (zone_of v0) -> quiet z0.
+Proof. intros z0 Hz. destruct Hok as (_ & Hv0 & _). exact (zeq_zone_of_quiet _ _ Hv0 Hz). Qed.
+
 Lemma prefix_facts : forall z0, zeq z0 (zone_of v0) ->
   skel_ok (v_serial v0) fin (secs_of v0 c1) /\
   exists z1, apply_secs z0 (secs_of v0 c1) = Some z1 /\
@@ -218,12 +235,12 @@ Theorem ixfr_dropped_section_soa_rejected : forall z0 ws,
                   soa_rr b :: zminus (v_rest b) (v_rest a) ++ diff_seqs b c2 ++ [soa_rr fin]) ws ->
   exists n, inbound_xfr z0 tIXFR (Some (v_serial v0)) false ws = (Error (mis_code fin b false) z0, n).
 Proof.
-  intros z0 ws Hne Hz Hch.
+  intros z0 ws Hne Hz Hch. pose proof (z0_quiet z0 Hz) as Hq0.
   destruct (prefix_facts z0 Hz) as [Hsk [z1 [Hap [Hl [Hwa [Hwb Hsa]]]]]].
   destruct Hok as (_ & _ & _ & Hser & Hlt).
   rewrite <- secs_stream_of in Hch.
   assert (Hend : end_serial (v_serial v0) (secs_of v0 c1) = v_serial a) by apply end_serial_of.
-  destruct (ixfr_soa_out_of_place fin (secs_of v0 c1) (zminus (v_rest a) (v_rest b)) b
+  destruct (ixfr_soa_out_of_place_q fin (secs_of v0 c1) (zminus (v_rest a) (v_rest b)) b
               (zminus (v_rest b) (v_rest a) ++ diff_seqs b c2 ++ [soa_rr fin]) z0 z1 (v_serial v0) ws
               Hsk Hap) as [n Hn]; try assumption.
   - apply plain_okrec, zminus_plain. destruct Hwa; assumption.
@@ -240,7 +257,7 @@ Theorem ixfr_duplicated_section_soa_rejected : forall z0 rest ws,
                   soa_rr b :: rest) ws ->
   exists n, inbound_xfr z0 tIXFR (Some (v_serial v0)) false ws = (Error (mis_code fin b false) z0, n).
 Proof.
-  intros z0 rest ws Hz Hch.
+  intros z0 rest ws Hz Hch. pose proof (z0_quiet z0 Hz) as Hq0.
   destruct (prefix_facts z0 Hz) as [Hsk [z1 [Hap [Hl [Hwa [Hwb Hsa]]]]]].
   destruct Hok as (_ & _ & _ & Hser & Hlt).
   set (extra := mkSect a [] a (zminus (v_rest a) (v_rest b))).
@@ -257,7 +274,7 @@ Proof.
   { rewrite secs_stream_app, secs_stream_of. cbn [secs_stream extra c_old c_dels c_new c_adds app].
     repeat (first [rewrite <- app_assoc | progress cbn [app] | rewrite app_nil_r]). reflexivity. }
   rewrite Hstream in Hch.
-  destruct (ixfr_soa_out_of_place fin _ [] b rest z0 _ (v_serial v0) ws Hsk2 Hap2) as [n Hn]; try assumption.
+  destruct (ixfr_soa_out_of_place_q fin _ [] b rest z0 _ (v_serial v0) ws Hsk2 Hap2) as [n Hn]; try assumption.
   - constructor.
   - right. reflexivity.
   - rewrite end_serial_join, Hend. exact Hcons.
@@ -274,7 +291,7 @@ Theorem ixfr_duplicated_first_soa_rejected : forall fin rest z0 ser ws,
 Proof.
   intros fin rest z0 ser ws Hs Hlt Hch.
   destruct (ixfr_soa_out_of_place fin [] [] fin rest z0 z0 ser ws Logic.I eq_refl (Forall_nil _)
-              (or_intror eq_refl) Hs Hs Hlt Hch) as [n Hn].
+              (or_intror eq_refl) Hs Hs Hlt (or_introl (conj eq_refl eq_refl)) Hch) as [n Hn].
   exists n. rewrite Hn. unfold mis_code. rewrite Z.eqb_refl. reflexivity.
 Qed.
 
